@@ -293,17 +293,30 @@ class _Rec:
         chk.cov.update(self.cov)
 
 
+def action_counts(r: Any) -> Counter:
+    """how often every action of MC_Reply fired on the way to a judged call (the machine records the actions it takes in
+    `acts`; Judge prints them) - the vacuity guard; TLC's -coverage would triple the run time"""
+    c: Counter = Counter()
+    for acts in r.printed.get("ACTS", []):
+        for a in acts:
+            c[a] += 1
+        c["Judge"] += 1
+    return c
+
+
 def design(chk: Any, maxdecl: int, level: int) -> Counter:
     """Returns the specification-level counterexamples of the as-is design: (clause, locus) -> number of (scenario, body)."""
     dev: Counter = Counter()
-    r = run_tlc(chk.scratch, "MC_Reply", design_cfg("as_is", maxdecl, level, True, HOLDING), coverage=True, allow_violation=True, timeout=1200, workers=8)
+    r = run_tlc(chk.scratch, "MC_Reply", design_cfg("as_is", maxdecl, level, True, HOLDING), allow_violation=True, timeout=1200, workers=8)
     chk.add_tlc(f"MC_Reply[as_is,MaxDecl={maxdecl},Level={level}]", r)
     if r.violated:
         chk.fail("C05.design_invariant", {"invariant": r.violated[0], "variant": "as_is"}, {"variant": "as_is"}, r.out[-1500:])
         return dev
+    acts = action_counts(r)
     for a in ACTIONS_AS_IS:
-        chk.require(r.coverage.get(a, (0, 0))[1] > 0, f"vacuous design run: action {a} never taken")
-    chk.cov["design_calls_checked"] = r.coverage.get("Judge", (0, 0))[1]
+        chk.require(acts.get(a, 0) > 0, f"vacuous design run: action {a} never taken")
+    chk.cov["design_calls_checked"] = acts.get("Judge", 0)
+    chk.cov["design_action_counts"] = {"as_is": dict(sorted(acts.items()))}
     first: dict[str, Any] = {}
     for d in r.printed.get("DESIGN", []):
         for f in d["fails"]:
@@ -314,13 +327,15 @@ def design(chk: Any, maxdecl: int, level: int) -> Counter:
     chk.cov["design_counterexample_classes"] = len(dev)
     chk.cov["design_counterexamples"] = [{"clause": json.loads(k)[0], "locus": json.loads(k)[1], "n": n, "first": first[k]} for k, n in sorted(dev.items())][:200]
     # the reference is satisfiable
-    r = run_tlc(chk.scratch, "MC_Reply", design_cfg("fixed", maxdecl, level, False, ["TypeOK", "MachineIsModel", "JudgeAgrees", "Property"]), coverage=True, allow_violation=True, timeout=1200, workers=8)
+    r = run_tlc(chk.scratch, "MC_Reply", design_cfg("fixed", maxdecl, level, False, ["TypeOK", "MachineIsModel", "JudgeAgrees", "Property"]), allow_violation=True, timeout=1200, workers=8)
     chk.add_tlc(f"MC_Reply[fixed,MaxDecl={maxdecl},Level={level}]", r)
     if r.violated:
         chk.fail("C05.design_invariant", {"invariant": r.violated[0], "variant": "fixed"}, {"variant": "fixed"}, r.out[-1500:])
     else:
+        acts = action_counts(r)
         for a in ACTIONS_FIXED:
-            chk.require(r.coverage.get(a, (0, 0))[1] > 0, f"vacuous design run (fixed): action {a} never taken")
+            chk.require(acts.get(a, 0) > 0, f"vacuous design run (fixed): action {a} never taken")
+        chk.cov["design_action_counts"]["fixed"] = dict(sorted(acts.items()))
     # negative control: a disagreement between the two selection copies is a design-level counterexample
     for v in ("sig201", "hdl201", "sigsorted"):
         r = run_tlc(chk.scratch, "MC_Reply", design_cfg(v, 2, 1, False, ["SelectionsAgree"]), allow_violation=True, workers=4)
